@@ -13,7 +13,7 @@ Model of the wire decoders of hickory-proto, statement by statement:
                           crates/server/src/server/request_handler.rs `Request::from_bytes`)
 
   rr/rdata/{tsig,cert,csync,tlsa,smimea,sshfp,openpgpkey}.rs, rr/record_type_set.rs,
-  rr/rdata/{caa,naptr}.rs, dnssec/rdata/{ds,cds,dnskey,cdnskey,key,sig,rrsig,nsec,nsec3,nsec3param}.rs,
+  rr/rdata/{caa,naptr,svcb,https}.rs, dnssec/rdata/{ds,cds,dnskey,cdnskey,key,sig,rrsig,nsec,nsec3,nsec3param}.rs,
   `DNSSECRData::read`
 
 Record types and classes are their 16-bit codes.  RDATA codecs that are not modelled yet are
@@ -55,6 +55,18 @@ structure OptEntry where
   val : OptVal
   deriving Repr, DecidableEq, Inhabited
 
+/-- `SvcParamValue` -/
+inductive SvcVal where
+  | mandatory (keys : List Nat)
+  | alpn (ids : List Bytes)
+  | noDefaultAlpn
+  | port (p : Nat)
+  | ipv4hint (addrs : Bytes)
+  | ech (d : Bytes)
+  | ipv6hint (addrs : Bytes)
+  | unknown (d : Bytes)
+  deriving Repr, DecidableEq, Inhabited
+
 /-- `RData` -/
 inductive RData where
   | a (b : Bytes)
@@ -93,6 +105,8 @@ inductive RData where
   | key (flags proto alg : Nat) (k : Bytes)
   | caa (critical : Bool) (reserved : Nat) (tag value : Bytes)
   | naptr (order pref : Nat) (flags services regexp : Bytes) (replacement : Name)
+  /-- SVCB / HTTPS -/
+  | svcb (prio : Nat) (target : Name) (params : List (Nat × SvcVal))
   /-- a record type whose codec is not modelled: whatever the parameter reader returned -/
   | opaque (t : Nat) (v : Bytes)
   deriving Repr, DecidableEq, Inhabited
@@ -171,7 +185,7 @@ def T_TSIG : Nat := 250
 def OP_UPDATE : Nat := 5
 
 /-- type codes whose RDATA codec has no model yet (they go through the parameter `opq`) -/
-def unmodelled : List Nat := [65, 64]                   -- HTTPS SVCB
+def unmodelled : List Nat := []
 
 /-- `RecordType::is_dnssec` -/
 def isDnssec (t : Nat) : Bool := [48, 60, 59, 43, 25, 47, 50, 51, 46, 24, 250].contains t
@@ -366,6 +380,93 @@ def readNsec3Head : Rd (Bool × Nat × Bytes) := do
         let salt ← readSlice saltLen
         pure (decide (flags % 2 = 1), iter, salt)
 
+/-! ### SVCB / HTTPS parameters (each value is decoded from its own length-delimited slice) -/
+
+/-- `String::from_utf8`: well-formed UTF-8 (no overlong forms, no surrogates, ≤ U+10FFFF) -/
+def validUtf8 : Bytes → Bool
+  | [] => true
+  | b0 :: rest =>
+    if b0 < 128 then validUtf8 rest
+    else if 194 ≤ b0 ∧ b0 ≤ 223 then
+      match rest with
+      | b1 :: r => if 128 ≤ b1 ∧ b1 ≤ 191 then validUtf8 r else false
+      | _ => false
+    else if 224 ≤ b0 ∧ b0 ≤ 239 then
+      match rest with
+      | b1 :: b2 :: r =>
+        let lo := if b0 = 224 then 160 else 128
+        let hi := if b0 = 237 then 159 else 191
+        if lo ≤ b1 ∧ b1 ≤ hi ∧ 128 ≤ b2 ∧ b2 ≤ 191 then validUtf8 r else false
+      | _ => false
+    else if 240 ≤ b0 ∧ b0 ≤ 244 then
+      match rest with
+      | b1 :: b2 :: b3 :: r =>
+        let lo := if b0 = 240 then 144 else 128
+        let hi := if b0 = 244 then 143 else 191
+        if lo ≤ b1 ∧ b1 ≤ hi ∧ 128 ≤ b2 ∧ b2 ≤ 191 ∧ 128 ≤ b3 ∧ b3 ≤ 191 then validUtf8 r else false
+      | _ => false
+    else false
+
+/-- `Mandatory::read`: u16 keys while anything is left -/
+def svcKeys : Bytes → Outcome (List Nat)
+  | [] => .ok []
+  | [_] => .err
+  | a :: b :: rest => (svcKeys rest).map fun ks => (a * 256 + b) :: ks
+
+/-- `Alpn::read`: character-strings while anything is left, each valid UTF-8 -/
+def svcAlpns : Bytes → Outcome (List Bytes)
+  | [] => .ok []
+  | n :: rest =>
+    if _h : n ≤ rest.length then
+      if validUtf8 (rest.take n) then (svcAlpns (rest.drop n)).map fun xs => rest.take n :: xs
+      else .err                                              -- Utf8
+    else .err
+termination_by l => l.length
+decreasing_by simp only [List.length_drop, List.length_cons]; omega
+
+/-- `SvcParamValue::read` on the parameter's slice (trailing octets after a port are ignored) -/
+def svcValue (key : Nat) (d : Bytes) : Outcome SvcVal :=
+  if key = 0 then
+    match svcKeys d with
+    | .ok [] => .err                                         -- SvcParamMissingValue
+    | .ok ks => .ok (.mandatory ks)
+    | .err => .err
+    | .panic s => .panic s
+  else if key = 1 then
+    match svcAlpns d with
+    | .ok [] => .err
+    | .ok xs => .ok (.alpn xs)
+    | .err => .err
+    | .panic s => .panic s
+  else if key = 2 then (if d.length > 0 then .err else .ok .noDefaultAlpn)
+  else if key = 3 then
+    match d with
+    | a :: b :: _ => .ok (.port (a * 256 + b))
+    | _ => .err
+  else if key = 4 then (if d.length % 4 = 0 then .ok (.ipv4hint d) else .err)
+  else if key = 5 then .ok (.ech d)
+  else if key = 6 then (if d.length % 16 = 0 then .ok (.ipv6hint d) else .err)
+  else .ok (.unknown d)
+
+/-- the `while decoder.len() >= 4` loop of `SVCB::read_data`; second component: octets consumed -/
+def svcParams : Bytes → Option Nat → List (Nat × SvcVal) → Outcome (List (Nat × SvcVal)) × Nat
+  | k0 :: k1 :: l0 :: l1 :: rest, last, acc =>
+    let key := k0 * 256 + k1
+    let len := l0 * 256 + l1
+    if _h : len > rest.length then (.err, 4)
+    else
+      match svcValue key (rest.take len) with
+      | .ok v =>
+        if (match last with | some lk => decide (lk ≥ key) | none => false) then (.err, 4 + len)   -- SvcParamsOutOfOrder
+        else
+          let r := svcParams (rest.drop len) (some key) (acc ++ [(key, v)])
+          (r.1, r.2 + 4 + len)
+      | .err => (.err, 4 + len)
+      | .panic s => (.panic s, 4 + len)
+  | _, _, acc => (.ok acc, 0)
+termination_by l _ _ => l.length
+decreasing_by simp only [List.length_drop, List.length_cons]; omega
+
 /-- `[0-9a-zA-Z]` -/
 def isAlnum (c : Nat) : Bool := (48 ≤ c && c ≤ 57) || (97 ≤ c && c ≤ 122) || (65 ≤ c && c ≤ 90)
 
@@ -533,6 +634,11 @@ def readRDataBody (opq : Nat → Rd Bytes) (t : Nat) : Rd RData :=
       let regexp ← readCharacterData
       let n ← Rd.name
       pure (.naptr order pref flags services regexp n)
+  else if t = 64 ∨ t = 65 then do                            -- SVCB / HTTPS
+    let prio ← readU16
+    let target ← Rd.name
+    let ps ← parsePrefix fun d => svcParams d none []
+    pure (.svcb prio target ps)
   else if isDnssec t then readDnssec t                       -- `r if r.is_dnssec()`
   else if unmodelled.contains t then do
     let v ← opq t
